@@ -222,11 +222,12 @@ where
                         s.confirmed_inactive = true;
                         // was the worker already past the library's enabled-check at that time?
                         let snap = x.ctl.snapshot();
-                        s.worker_had_decided = snap.iter().any(|p| p.0.starts_with("vring_worker") && p.2 == Some(Point::User(s.site)));
+                        s.worker_had_decided = snap.iter().any(|p| !p.0.starts_with("vmc-daemon") && p.2 == Some(Point::User(s.site)));
                     }
                 }
             }
-            if name.starts_with("vring_worker") {
+            // (the worker is whichever library thread is not the daemon thread; its name is the library's business)
+            if !name.starts_with("vmc-daemon") {
                 if info.point == Some(Point::User(s.site)) {
                     // the backend's handler is entered now for the observed ring
                     if s.confirmed_inactive {
@@ -250,7 +251,7 @@ where
     fn finish(&self, s: &mut Self::S, x: &mut Exec) {
         let snap = x.ctl.snapshot();
         for p in &snap {
-            if p.0.starts_with("vring_worker") && p.1 == PState::Exited {
+            if !p.0.starts_with("vmc-daemon") && p.1 == PState::Exited {
                 x.violation("C12:worker-exited", "the vring worker thread terminated");
             }
             if p.0.starts_with("vmc-daemon") && p.1 == PState::Exited {
